@@ -26,6 +26,7 @@
 (*          (longitude change / Earth rotation rate)                       *)
 (*   smooth the step of (UT1 - TAI) between the table rows of the two days *)
 (*          (0 inside a day), same unit; dat = the step of TAI - UTC (s)   *)
+(* (h = 1 marks a half-second transition s.0 -> s.5, expected 0.5e8)       *)
 (* and TLC accepts the record iff  adv = Elapsed*1e8 + smooth  within Tol, *)
 (* the table's leap seconds are exactly the ones listed here, and the      *)
 (* smooth part is bounded by SmoothMax (so a jump can only be a leap       *)
@@ -110,13 +111,16 @@ DoyRestartsOnlyAtNewYear == [][Step => ((doy' = 1) <=> ("year" \in Kinds(y, m, d
 LeapOnlyAtMidnight == \A s \in {0, 59, 3599, 43200, 86398, 86399} :
                          Elapsed(y, m, d, s) = 2 <=> "leapsecond" \in Kinds(y, m, d, s)
 
+\* r.h = 0: the transition s -> s+1;  r.h = 1: the first half of second s (s.0 -> s.5), which crosses nothing
 RecordOK(r) ==
-  LET el == Elapsed(y, m, d, r.s)
+  LET el == IF r.h = 1 THEN 0 ELSE Elapsed(y, m, d, r.s)
+      expected == IF r.h = 1 THEN 50000000 ELSE el * 100000000 + r.smooth
   IN /\ r.y = y /\ r.m = m /\ r.d = d /\ r.s \in 0..86399     \* the driver's datetime calendar is this calendar
-     /\ r.dat = el - 1                                        \* the table's leap seconds are the listed ones
-     /\ (r.s < 86399 => r.smooth = 0)                         \* one table row per day
+     /\ r.h \in {0, 1}
+     /\ (r.h = 0 => r.dat = el - 1)                           \* the table's leap seconds are the listed ones
+     /\ ((r.s < 86399 \/ r.h = 1) => r.smooth = 0 /\ r.dat = 0) \* one table row per day
      /\ Abs(r.smooth) <= SmoothMax
-     /\ Abs(r.adv - (el * 100000000 + r.smooth)) <= Tol       \* rotation advances by the elapsed UT1
+     /\ Abs(r.adv - expected) <= Tol                          \* rotation advances by the elapsed UT1
 ContinuityOK == \A i \in 1..Len(RecsOf(dayNo)) : RecordOK(RecsOf(dayNo)[i])
 
 \* expected values for the driver (day-of-year oracle, classification of midnight)
